@@ -168,6 +168,54 @@ def _mentions_err_result(t, depth=0):
     return any(_mentions_err_result(x, depth + 1) for x in t if isinstance(x, tuple))
 
 
+def _err_adaptors_in(u, b, rep):
+    """iterator adaptors that silently drop the Err items of a sequence of Results; returns the number of sites"""
+    n = 0
+    acc = []
+    calls_in(b.crate, b.thir["root"], acc)
+    for (dj, rj, e) in acc:
+        nm = dj.get("name")
+        if dj.get("krate") == "core" and nm in ("flat_map", "flatten", "filter_map") and e["args"]:
+            bad = False
+            if nm == "flatten":
+                bad = _mentions_err_result(b.crate.ty(e["args"][0]["ty"]))
+            else:
+                for a in e["args"][1:]:
+                    x = a
+                    while x.get("k") in ("Use", "NeverToAny") and "e" in x:
+                        x = x["e"]
+                    if x.get("k") == "Closure":
+                        cb = u.bodies.get(b.crate.def_id(x["d"]))
+                        rt = None
+                        if cb is not None and cb.output is not None:
+                            rt = cb.crate.ty(cb.output)
+                        elif cb is not None and cb.thir is not None and "ty" in cb.thir["root"]:
+                            rt = cb.crate.ty(cb.thir["root"]["ty"])
+                        if rt is not None and _mentions_err_result(rt) and nm == "flat_map":
+                            bad = True
+            n += 1
+            rep.oblige(not bad)
+            if bad:
+                rep.add("P-ERR", "%s:%s" % (short_fn(b), nm), "in `%s` a sequence of Results goes through `.%s(..)`, which silently drops every Err item: a failed read or write disappears" % (b.n, nm), b.crate.span(e["sp"]))
+    return n
+
+
+def rule_err_adaptors(u, rep, scope_files, crate="epserde", errs=None, only_fn=None):
+    """the adaptor part of P-ERR alone (for properties that otherwise look at selected callees only)"""
+    _ERR_FILTER[0] = errs
+    try:
+        n = 0
+        for b in u.bodies.values():
+            if b.thir is None or b.d.get("krate") != crate or not in_scope(b, scope_files):
+                continue
+            if only_fn and not only_fn(b):
+                continue
+            n += _err_adaptors_in(u, b, rep)
+        return n
+    finally:
+        _ERR_FILTER[0] = None
+
+
 def _rule_PERR(u, rep, scope_files, crate="epserde", exclude_fn=None, only_callees=None):
     n = 0
     for b in u.bodies.values():
@@ -178,33 +226,7 @@ def _rule_PERR(u, rep, scope_files, crate="epserde", exclude_fn=None, only_calle
         if exclude_fn and exclude_fn(b):
             continue
         if not only_callees:
-            # iterator adaptors that silently drop the Err items of a sequence of Results
-            acc = []
-            calls_in(b.crate, b.thir["root"], acc)
-            for (dj, rj, e) in acc:
-                nm = dj.get("name")
-                if dj.get("krate") == "core" and nm in ("flat_map", "flatten", "filter_map") and e["args"]:
-                    bad = False
-                    if nm == "flatten":
-                        bad = _mentions_err_result(b.crate.ty(e["args"][0]["ty"]))
-                    else:
-                        for a in e["args"][1:]:
-                            x = a
-                            while x.get("k") in ("Use", "NeverToAny") and "e" in x:
-                                x = x["e"]
-                            if x.get("k") == "Closure":
-                                cb = u.bodies.get(b.crate.def_id(x["d"]))
-                                rt = None
-                                if cb is not None and cb.output is not None:
-                                    rt = cb.crate.ty(cb.output)
-                                elif cb is not None and cb.thir is not None and "ty" in cb.thir["root"]:
-                                    rt = cb.crate.ty(cb.thir["root"]["ty"])
-                                if rt is not None and _mentions_err_result(rt) and nm == "flat_map":
-                                    bad = True
-                    n += 1
-                    rep.oblige(not bad)
-                    if bad:
-                        rep.add("P-ERR", "%s:%s" % (short_fn(b), nm), "in `%s` a sequence of Results goes through `.%s(..)`, which silently drops every Err item: a failed read or write disappears" % (b.n, nm), b.crate.span(e["sp"]))
+            n += _err_adaptors_in(u, b, rep)
         sites = []
         walk(b.crate, b.thir["root"], None, sites, None)
         for (e, parent, _c) in sites:
